@@ -149,6 +149,12 @@ def c06(tier):
     out = []
     grids = [("uniform", dict(kind="uniform")),
              ("uniform-minmax", dict(kind="uniform", min=0.1, max=2.0)),
+             ("uniform-min-only", dict(kind="uniform", min=0.1)),
+             ("uniform-max-only", dict(kind="uniform", max=2.0)),
+             ("uniform-locT-max-only", dict(kind="uniform", localize_T=True, max=2.0)),
+             ("geometric-min-only", dict(kind="geometric", growth=2.0, min=0.05)),
+             ("free-max-only", dict(kind="free", max=1.0)),
+             ("free-min-only", dict(kind="free", min=0.1)),
              ("uniform-locT", dict(kind="uniform", localize_T=True)),
              ("uniform-locT-minmax", dict(kind="uniform", localize_T=True, min=0.1, max=2.0)),
              ("uniform-loct0", dict(kind="uniform", localize_t0=True)),
@@ -202,6 +208,10 @@ def c02(tier):
             out.append(("DC-d%d-%s-dae" % (d, sch),
                         _mk(method="DC", N=2, M=1, degree=d, scheme=sch, algebraics=[1], T=("unknown",),
                             ode=E("f", None, ("x", "u", "z", "t")), alg=E("g", None, ("x", "z", "u", "t")))))
+            if d <= 3:
+                out.append(("DC-d%d-%s-dae-M2" % (d, sch),
+                            _mk(method="DC", N=2, M=2, degree=d, scheme=sch, algebraics=[2], T=("unknown",),
+                                ode=E("f", None, ("x", "u", "z", "t")), alg=E("g", None, ("x", "z", "u", "t")))))
     out.append(("DC-d2-geometric", _mk(method="DC", N=3, M=2, degree=2, grid=dict(kind="geometric", growth=2.0), T=("free", 1.0), ode=E("f", None, ("x", "u", "t")))))
     out.append(("DC-d2-localizeT", _mk(method="DC", N=2, M=2, degree=2, grid=dict(kind="uniform", localize_T=True), T=("free", 1.0), ode=E("f", None, ("x", "u", "t")))))
     return out
@@ -255,6 +265,10 @@ def c10(tier):
                                                   initial=[("T", ("unknown", "g_T", 1, 1)), ("t0", ("unknown", "g_t0", 1, 1))] + texpr_states(), **base)))
         out.append(("%s-Tguess-last-texpr" % meth, _mk(method=meth, N=3, M=1, degree=2, T=("free", 1.0), t0=("free", 0.0),
                                                        initial=texpr_states() + [("t0", ("unknown", "g_t0", 1, 1)), ("T", ("unknown", "g_T", 1, 1))], **base)))
+        for gl, g in (("geometric-locT", dict(kind="geometric", growth=2.0, localize_T=True)), ("geometric-local-locT", dict(kind="geometric", growth=1.5, local=True, localize_T=True)),
+                      ("uniform-locboth", dict(kind="uniform", localize_T=True, localize_t0=True)), ("freegrid", dict(kind="free"))):
+            out.append(("%s-%s-texpr" % (meth, gl), _mk(method=meth, N=3, M=2, degree=2, T=("free", 2.0), t0=("fixed", 1.0), grid=dict(g),
+                                                      initial=texpr_states() + texpr_controls(), **base)))
         out.append(("%s-geometric-texpr" % meth, _mk(method=meth, N=3, M=2, degree=2, T=("free", 2.0), grid=dict(kind="geometric", growth=2.0, local=True), initial=texpr_states(), **base)))
     return out
 
